@@ -82,6 +82,10 @@ theorem exec_transparent (p : Prog) : ∀ s : St, s.playback = none → Transp s
     intro s h
     have := ih (doRecordData s key v) (by simpa using h)
     simpa [Transp, exec, runPlain] using this
+  | setEnabled b k ih =>
+    intro s h
+    have := ih (doSetEnabled s b) (by simpa using h)
+    simpa [Transp, exec, runPlain] using this
   | playData key k ih =>
     intro s h
     have hp : doPlayData s key = .ret (.atom "None") := by simp [doPlayData, h]
